@@ -97,6 +97,8 @@ namespace Drv
 structure State where
   inst : Inst := { nodes := [], parent := none, nChildren := 0, agg := fun _ => false }
   q    : Queues := fun _ => []
+  /-- `some l`: the receiver does not know the tree yet, arriving envelopes are parked (C01) -/
+  parked : Option (List Wire) := none
 
 def init : State := {}
 
@@ -113,6 +115,15 @@ def parseNodes (s : String) : Option (List Node) :=
 def optNat (s : String) : Option (Option Nat) :=
   if s = "-" then some none else s.toNat?.map some
 
+/-- a peer identity: `-` (none), `<k>` (server k), or `<k>f<v>`: the key of server k with the
+deprecated, self-announced `ID` field of server v — only the key is authenticated -/
+def peer? (s : String) : Option (Option Nat) :=
+  match s.splitOn "f" with
+  | [k, v] => match k.toNat?, v.toNat? with
+    | some k, some _ => some (some k)
+    | _, _ => none
+  | _ => optNat s
+
 /-- `cfg <nodes id:server,…> <parent id|-> <nChildren> <aggregated types>` and
 `msg <type> <claimed sender id|-> <peer server|-> <value>`; the reply to `msg` lists what was
 delivered as `type/senderId@server/value,…` or `-`. -/
@@ -123,9 +134,29 @@ def step (s : State) (toks : List String) : State × String :=
     | some ns, some p, some n, some l =>
       ({ inst := { nodes := ns, parent := p, nChildren := n, agg := fun t => l.contains t }, q := fun _ => [] }, "ok")
     | _, _, _, _ => (s, "bad-op")
+  | ["cfg", nodes, par, n, aggs, "unknown-tree"] =>
+    match parseNodes nodes, optNat par, n.toNat?, Util.natList aggs with
+    | some ns, some p, some n, some l =>
+      ({ inst := { nodes := ns, parent := p, nChildren := n, agg := fun t => l.contains t }, q := fun _ => [],
+         parked := some [] }, "ok")
+    | _, _, _, _ => (s, "bad-op")
+  | ["treearrives"] =>
+    match s.parked with
+    | none => (s, "ok")
+    | some ws =>
+      -- the flush re-enters every parked envelope in arrival order
+      let r := ws.foldl (fun (acc : Queues × List (Node × Msg)) w =>
+                  let x := receive s.inst acc.1 w
+                  (x.1, acc.2 ++ (x.2.getD []))) (s.q, [])
+      ({ s with q := r.1, parked := none },
+        if r.2.isEmpty then "-" else
+          ",".intercalate (r.2.map fun (n, m) => s!"{m.ty}/{n.id}@{n.server}/{m.val}"))
   | ["msg", t, snd, peer, v] =>
-    match t.toNat?, optNat snd, optNat peer, v.toNat? with
+    match t.toNat?, optNat snd, peer? peer, v.toNat? with
     | some t, some snd, some peer, some v =>
+      match s.parked with
+      | some ws => ({ s with parked := some (ws ++ [{ ty := t, sender := snd, peer := peer, val := v }]) }, "-")
+      | none =>
       let r := receive s.inst s.q { ty := t, sender := snd, peer := peer, val := v }
       ({ s with q := r.1 },
         match r.2 with
